@@ -545,6 +545,34 @@ def unit_bounded(U):
                 fails.append({"case": {"initial": first, "then": "update([exon, exon]); update([exon])"}, "expected": exp, "observed": got})
         except Exception as e:
             fails.append({"case": {"initial": first, "then": "update([exon, exon]); update([exon])"}, "expected": "unique keys exon_1..", "observed": repr(e)})
+    # an explicit ID that LOOKS like a generated key ('<featuretype>_<n>') is an ID like any other: a second feature with it
+    # is a duplicate handled by the merge strategy, never re-keyed; through create_db and through update()
+    for ft, idv in (("exon", "exon_7"), ("gene", "gene_3"), ("exon", "exon_1")):
+        for strategy, exp_keys in (("error", None), ("warning", [idv]), ("replace", [idv]), ("create_unique", [idv, idv + "_1"]), ("merge", [idv])):
+            for via in ("create_db", "update"):
+                cases += 1
+                a, b = _mk("c", ft, {"ID": [idv], "Note": ["first"]}), _mk("c", ft, {"ID": [idv], "Note": ["second"]})
+                case = {"features": [str(a), str(b)], "merge_strategy": strategy, "via": via}
+                try:
+                    if via == "create_db":
+                        db = gffutils.create_db([a, b], ":memory:", id_spec="ID", merge_strategy=strategy)
+                    else:
+                        db = gffutils.create_db([a], ":memory:", id_spec="ID")
+                        db.update([b], merge_strategy=strategy, make_backup=False)
+                    got = sorted(f.id for f in db.all_features())
+                    if exp_keys is None:
+                        fails.append(dict(case, expected="ValueError (duplicate ID)", observed=got))
+                    elif got != sorted(exp_keys):
+                        fails.append(dict(case, expected=sorted(exp_keys), observed=got))
+                    else:
+                        notes = {"warning": ["first"], "replace": ["second"], "merge": ["first", "second"]}.get(strategy)
+                        if notes is not None and list(db[idv].attributes["Note"]) != notes:
+                            fails.append(dict(case, expected={"Note": notes}, observed={"Note": list(db[idv].attributes["Note"])}))
+                except ValueError as e:
+                    if exp_keys is not None:
+                        fails.append(dict(case, expected=sorted(exp_keys), observed=repr(e)))
+                except Exception as e:
+                    fails.append(dict(case, expected="ValueError" if exp_keys is None else sorted(exp_keys), observed=repr(e)))
     U.bounded_result("C04.bounded.files", "keys in input order == id_spec keys / '<featuretype>_<n>' numbering; unique; db[key] exact; absent raises",
                      "%d generated feature lists (<= 8 features, id_spec ['ID','Name'])" % n, cases, fails)
 
